@@ -202,6 +202,9 @@ func c13filter(env sched.Env) *sched.Report {
 		if env.Tier == "thorough" {
 			lens = append(lens, 100, 200, 513, 8192, 70000)
 		}
+		if T == 8 {
+			lens = append(lens, 65535, 65536, 65537, 131073) // around the block size of the compression stream format
+		}
 		pv := vals[:small:small]
 		for _, l := range lens {
 			if l < 0 {
